@@ -20,6 +20,22 @@ pub fn generate(tier: &str, rng: &mut Rng) -> Vec<String> {
                   evs: vec!["i0102".into(), "e5".into(), "i03".into(), "i04".into()],
                   items: vec![vec![1, 2], vec![3], vec![4]], extra_polls: 4 }.line(),
     );
+    // rev1 S2: `Encoder::encode` fails on the second item after writing part of it — nothing of
+    // that item (neither the reserved 5-byte header nor the partial payload) may be sent, the first
+    // item is still delivered, then INTERNAL
+    for server in [true, false] {
+        for comp in [None, Some(tonic::codec::CompressionEncoding::Gzip)] {
+            for yield_thr in [0usize, 32768] {
+                for k in [0usize, 2, 3] {
+                    out.push(
+                        EncCase { server, comp, disable: false, yield_thr, buf_size: 8192, max: None,
+                                  evs: vec!["i0102".into(), format!("f{}.ee0304", k), "i05".into()],
+                                  items: vec![vec![1, 2], vec![5]], extra_polls: 4 }.line(),
+                    );
+                }
+            }
+        }
+    }
     let n = if thorough { 40000 } else { 4000 };
     for _ in 0..n {
         let (e, l) = (rng.chance(1, 2), rng.chance(1, 3));
@@ -85,7 +101,6 @@ pub fn execute(case: &str) -> String {
 //        observed: M<method> V<version> P<hex> ct<hex> te<hex> ge<hex|-> gae<hex|-> B <frames>* Z …
 use bytes::Bytes;
 use http_body::Frame;
-use http_body_util::BodyExt;
 use std::future::Future;
 use std::pin::Pin;
 use std::task::{Context, Poll};
@@ -191,7 +206,27 @@ where
     let mut data = Vec::new();
     let mut extra = 0;
     loop {
-        match body.frame().await {
+        // poll with a counting waker that passes wake-ups on to the task's own: a Pending during
+        // which nothing was woken would park this task for ever (`lost-wakeup`)
+        let frame = std::future::poll_fn(|cx| {
+            let (wakes, waker) = counting_waker(Some(cx.waker().clone()));
+            let mut cx2 = Context::from_waker(&waker);
+            let refs_before = std::sync::Arc::strong_count(&wakes);
+            match Pin::new(&mut body).poll_frame(&mut cx2) {
+                Poll::Pending if no_wakeup(&wakes, 0, refs_before) => Poll::Ready(Err(())),
+                Poll::Pending => Poll::Pending,
+                Poll::Ready(f) => Poll::Ready(Ok(f)),
+            }
+        })
+        .await;
+        let frame = match frame {
+            Ok(f) => f,
+            Err(()) => {
+                toks.push("lost-wakeup".to_string());
+                break;
+            }
+        };
+        match frame {
             None => {
                 toks.push("n".to_string());
                 extra += 1;
